@@ -274,7 +274,10 @@ def mutate_text(rng, text):
                 tz_l = [l for l in nz if l.upper().startswith("TZID")]
                 nz = [l for l in nz if not l.upper().startswith("TZID")]
                 nz = nz[:-1] + tz_l + nz[-1:]
-            elif variant == 3:
+            if rng.random() < 0.5:
+                # the same rules under other names: every zone keeps ITS OWN TZNAMEs (nothing is shared between the zones of a stream)
+                nz = [(l + str(j + 2)) if l.upper().startswith("TZNAME:") else l for l in nz]
+            if variant == 3:
                 # a zone without components after a complete one
                 nz = [l for l in nz if l.upper().startswith(("BEGIN:VTIMEZONE", "END:VTIMEZONE", "TZID"))]
             lines = lines + nz
@@ -339,6 +342,70 @@ def correspondence(ctx):
         ctx.count("translated_parse_rfc_runs", len(pq)); ctx.traces += len(pq)
     else:
         ctx.note("TzRfcKernels not regenerated: %s" % (((ctx.lean.gen_report.get("kernels") or {}).get("TzRfcKernels") or {}).get("error"),))
+    if ((ctx.lean.gen_report.get("kernels") or {}).get("TzRfcKernels") or {}).get("ok"):
+        # the TRANSLATED tzical.get / tzical.keys on the dict the translated _parse_rfc leaves (C17.tzical_get_spec, get_after_parse)
+        gq, ge = [], []
+        for t in dict.fromkeys(texts):
+            if not all(ord(c) < 128 for c in t):
+                continue
+            e, obj = impl_parse(t)
+            if obj is None:
+                continue
+            for tzid in (None, "Test", "Second", "Third", "nope"):
+                try:
+                    z = obj.get(tzid)
+                    g = "ok none" if z is None else "ok %d" % list(obj._vtz.values()).index(z)
+                except Exception as ex:
+                    g = "err %s" % exc_kind(ex)
+                if g.startswith("ok"):
+                    g += " keys=[" + ",".join(hexs(k) for k in obj.keys()) + "]"
+                gq.append("tzgen.ical.get %s %s" % (hexs(t), "-" if tzid is None else hexs(tzid))); ge.append(g)
+        for q, e, g in zip(gq, ge, ctx.driver(gq)):
+            if e != g:
+                ctx.mismatch("tzgen.ical.get", q[:300], e[:300], g[:300])
+        ctx.count("translated_get_runs", len(gq)); ctx.traces += len(gq)
+        # the TRANSLATED _tzicalvtzcomp.__init__ (offsets as timedeltas, their difference, OverflowError outside the timedelta range)
+        from dateutil.tz import tz as _tzmod
+        cq, ce = [], []
+        for f, t2 in [(3600, 7200), (-18000, -14400), (0, 0), (-1, 1), (86399999999999, 0), (86400000000000, 0), (0, -86399999913601), (0, -86399999913600 - 86400),
+                      (10 ** 15, 5), (7200, -10 ** 16), (37800, 39600), (-12600, -9000)]:
+            try:
+                c = _tzmod._tzicalvtzcomp(f, t2, False)
+                us = lambda td: td // datetime.timedelta(microseconds=1)
+                g = "ok %d %d %d" % (us(c.tzoffsetfrom), us(c.tzoffsetto), us(c.tzoffsetdiff))
+            except Exception as ex:
+                g = "err %s" % exc_kind(ex)
+            cq.append("tzgen.ical.compinit %d %d" % (f, t2)); ce.append(g)
+        for q, e, g in zip(cq, ce, ctx.driver(cq)):
+            if e != g:
+                ctx.mismatch("tzgen.ical.compinit", q, e, g)
+        ctx.traces += len(cq)
+    # tzical.__init__ (translated: Gen.tzical_init): a path and a stream with the same text build the same zones / raise alike; what
+    # open() raises is raised unchanged
+    import tempfile, os as _os
+    for t in [x for x in dict.fromkeys(texts) if all(ord(c) < 128 for c in x)][:ctx.budget(12, 120)]:
+        with tempfile.NamedTemporaryFile("w", suffix=".ics", delete=False, newline="") as fh:
+            fh.write(t)
+        try:
+            a, _ = impl_parse(t)
+            try:
+                with warnings.catch_warnings():
+                    warnings.simplefilter("ignore")
+                    zs = tz.tzical(fh.name)
+                b = "ok %d %s" % (len(zs._vtz), ";".join(hexs(k) for k in zs._vtz))
+            except Exception as ex:
+                b = "err %s" % exc_kind(ex)
+            a2 = a if a.startswith("err") else "ok %s %s" % (a.split()[1], ";".join(z.split("=")[0] for z in a.split(" ", 2)[2].split(";")) if len(a.split(" ", 2)) > 2 and a.split(" ", 2)[2] else "")
+            if a2.strip() != b.strip():
+                ctx.mismatch("tzical.__init__ path vs stream", hexs(t)[:200], a2[:200], b[:200])
+            ctx.traces += 1
+        finally:
+            _os.unlink(fh.name)
+    try:
+        tz.tzical("/nonexistent/definitely/not/here.ics")
+        ctx.mismatch("tzical.__init__ missing path", "-", "raises", "accepted")
+    except (IOError, OSError):
+        ctx.count("init_missing_path_raises_oserror")
     pending = []
     accepted = []
     for q, (kind, e), g in zip(reqs, exp, got):
@@ -895,3 +962,110 @@ TRUSTED = TRUSTED + [
 TRUSTED = TRUSTED + [
     "translator tie for tzical._parse_rfc: harness/translate_rfc.py re-translates it from /repo's working tree into Generated/TzRfcKernels.lean on every run (while-loop body and condition, line-loop body on the record of carried locals, whole function); named primitives in Model/RfcPy.lean (split(c,1) with its unpack ValueError, del l[i], l[i] += x, for-loops that only raise, the fuelled while loop - proved never to exhaust its fuel -, rrulestr(...) as a parameter: C13's domain, _tzicalvtzcomp / _tzicalvtz constructors as records, self._vtz as an insertion-ordered association list, locals first bound inside a component starting at the record's defaults); exercised through the driver op tzgen.ical.rfc on every correspondence text",
 ]
+
+
+# --- several zones in one stream (wt-tzrule, second wave): zones with IDENTICAL offsets and rules but different TZNAMEs, fetched by TZID,
+# answer exactly like the same definition loaded alone (nothing of one zone's components may be reused for another zone)
+def oracle_multi_zone(ctx):
+    from dateutil import tz
+    rng = ctx.subrng("multi-zone")
+    for k in range(ctx.budget(6, 60)):
+        spec = gen_spec(rng)
+        ids = ["Zone/A", "Zone/B", "Zone/C"][:rng.choice([2, 3])]
+        names = {"Zone/A": ("AS", "AD"), "Zone/B": ("BS", "BD"), "Zone/C": ("CS", "CD")}
+        other = gen_spec(rng)
+        parts = []
+        for i, zid in enumerate(ids):
+            sp = other if (zid == "Zone/C" and rng.random() < 0.5) else spec
+            parts.append((zid, sp, vtimezone(sp, rng if k % 2 else None, tzid=zid, names=names[zid], order=(k + i) % 2)))
+        stream = "".join(t for _, _, t in parts)
+        with warnings.catch_warnings():
+            warnings.simplefilter("ignore")
+            try:
+                multi = load(stream)
+            except Exception as ex:
+                ctx.case(("multi-zone", stream))
+                ctx.violation("tzical rejects a stream of %d well-formed zones: %s" % (len(ids), exc_kind(ex)), {"kind": "multi-zone", "phase": "load"}, stream)
+                continue
+            ctx.case(("multi-zone-keys", stream))
+            if sorted(multi.keys()) != sorted(ids):
+                ctx.violation("keys() of a %d-zone stream: %r, expected %r" % (len(ids), multi.keys(), ids), {"kind": "multi-zone", "phase": "keys"}, stream)
+                continue
+            bad = False
+            for zid, sp, text in parts:
+                zm, zs = multi.get(zid), load(text).get()
+                for y in (2019, 2022):
+                    for tu in transitions_utc(sp, y):
+                        for d in (-86400, -1, 0, 1, 86400):
+                            u = tu + datetime.timedelta(seconds=d)
+                            a = u.replace(tzinfo=tz.UTC).astimezone(zm); b = u.replace(tzinfo=tz.UTC).astimezone(zs)
+                            ta = (a.replace(tzinfo=None), a.fold, a.utcoffset(), a.tzname(), a.dst())
+                            tb = (b.replace(tzinfo=None), b.fold, b.utcoffset(), b.tzname(), b.dst())
+                            ctx.case(("multi-zone", zid, tzstr_of(sp), secs(u)), nontrivial=True)
+                            if ta != tb or a.tzname() not in names[zid]:
+                                ctx.violation("zone %s of a %d-zone stream at %sZ answers %r; the same definition loaded alone answers %r" % (
+                                    zid, len(ids), u.isoformat(), ta[1:], tb[1:]), {"kind": "multi-zone", "phase": "lookup", "tzid": zid, "utc": u.isoformat()}, stream)
+                                bad = True
+                                break
+                        if bad: break
+                    if bad: break
+                if bad: break
+        ctx.count("multi_zone_streams")
+
+_oracle_without_multi = oracle
+
+def oracle(ctx):
+    _oracle_without_multi(ctx)
+    oracle_multi_zone(ctx)
+# --- end of the appended block
+
+
+# --- the last representable years (wt-tzrule, second wave): a yearly component rule still yields its occurrences of year 9998 / 9999
+# (DTSTART 9990), so the zone agrees with the tzstr of the same rules there too (years 1..2 are not swept: the DTSTART text of year 1
+# goes through parser.parse's two-digit-year reading, which is C02's subject)
+def oracle_edge_years(ctx):
+    from dateutil import tz
+    rng = ctx.subrng("edge-years")
+    for k in range(ctx.budget(8, 80)):
+        spec = gen_spec(rng)
+        for first, years in ((9990, (9997, 9998, 9999)),):
+            text = vtimezone(spec, first_year=first, order=k % 2)
+            s = tzstr_of(spec)
+            with warnings.catch_warnings():
+                warnings.simplefilter("ignore")
+                try:
+                    zi = load(text).get(); zs = reference_zone(spec)
+                except Exception as ex:
+                    ctx.case(("edge-load", text))
+                    ctx.violation("tzical rejects a well-formed VTIMEZONE with DTSTART in year %d: %s" % (first, exc_kind(ex)), {"kind": "edge-years", "phase": "load"}, text)
+                    continue
+                ok = True
+                for y in years:
+                    a, b = transitions_utc(spec, y)
+                    first_onset = min(transitions_utc(spec, first)) + datetime.timedelta(days=2)
+                    probes = [t + datetime.timedelta(seconds=d) for t in (a, b) for d in (-86400, -3600, -1, 0, 1, 3600, 86400)] + \
+                        [datetime.datetime(y, 6, 15, 12), datetime.datetime(y, 7, 15), datetime.datetime(y, 2, 10, 6), datetime.datetime(y, 12, 10, 18)]
+                    for u in probes:
+                        if u < first_onset:
+                            continue          # the property speaks "from its first onset on"
+                        ctx.case(("edge-years", s, secs(u)), nontrivial=True)
+                        try:
+                            x = u.replace(tzinfo=tz.UTC).astimezone(zs); w = u.replace(tzinfo=tz.UTC).astimezone(zi)
+                            tx = (x.replace(tzinfo=None), x.utcoffset(), x.tzname(), x.dst()); tw = (w.replace(tzinfo=None), w.utcoffset(), w.tzname(), w.dst())
+                        except OverflowError:
+                            continue
+                        if tx != tw:
+                            ctx.violation("year %d: tzical %r != tzstr %r at %sZ" % (y, tw[1:], tx[1:], u.isoformat()),
+                                          {"kind": "edge-years", "phase": "lookup", "tzstr": s, "utc": u.isoformat(), "dtstart_year": first}, text)
+                            ok = False
+                            break
+                    if not ok:
+                        break
+        ctx.count("edge_year_zones")
+
+_oracle_without_edge = oracle
+
+def oracle(ctx):
+    _oracle_without_edge(ctx)
+    oracle_edge_years(ctx)
+# --- end of the appended block
